@@ -114,10 +114,10 @@ Section Model.
 End Model.
 
 (* The pinned commit (variant [asis]) violates two clauses; witnesses. *)
-Definition w_hijack : list (list req) := [[mkReq Plain QHijack RtOk SPass false]].
+Definition w_hijack : list (list req) := [[mkReq Plain true false false RtOk false false false]].
 Definition w_connect : list (list req) :=
-  [[mkReq ConnectMitm QPass RtOk SPass false; mkReq Plain QPass RtOk SPass false]].
-Definition w_skip : list (list req) := [[mkReq ConnectBlind QSkip RtOk SPass false]].
+  [[mkReq ConnectMitm false false false RtOk false false false; mkReq Plain false false false RtOk false false false]].
+Definition w_skip : list (list req) := [[mkReq ConnectBlind false false true RtOk false false false]].
 
 Lemma asis_hijack_fails :
   exists Ts n, model_obs asis w_hijack = Some (Ts, n) /\ c02_fail w_hijack Ts n 0 = Some CHijack.
